@@ -1,6 +1,7 @@
 import contextlib
 from collections.abc import Mapping
 from dataclasses import replace
+from keyword import iskeyword
 from string import Template
 from typing import Any, Callable, NamedTuple
 
@@ -195,7 +196,7 @@ class BuiltinModelDumperGen(ModelDumperGen):
     def _gen_access_expr(self, namespace: CascadeNamespace, field: OutputField) -> str:
         accessor = field.accessor
         if isinstance(accessor, DescriptorAccessor):
-            if accessor.attr_name.isidentifier():
+            if accessor.attr_name.isidentifier() and not iskeyword(accessor.attr_name):
                 return f"data.{accessor.attr_name}"
             return f"getattr(data, {accessor.attr_name!r})"
         if isinstance(accessor, ItemAccessor):
